@@ -60,6 +60,7 @@ func c01NewWorld(id int, name string, regs [13]uint64, pages map[uint32]MemoryAc
 	w := &c01World{id: id, name: name, regs: regs, heapPtr: heapPtr, heapLimit: heapLimit}
 	w.ref = refpvm.NewMemory()
 	w.ref.HeapPtr, w.ref.HeapLimit = heapPtr, heapLimit
+	w.ref.SbrkMaxPages = 64
 	var nums []uint32
 	for n := range pages {
 		nums = append(nums, n)
@@ -410,6 +411,11 @@ func c01RunRef(prog *refpvm.Program, w *c01World, gas uint64, opt refpvm.Options
 	if r.exit.Kind == refpvm.Host {
 		r.pc = m.NextPC
 	}
+	if m.Mem.TooBig {
+		// an sbrk of more than 64 pages (only possible in the standard-program world,
+		// where the heap may grow to the stack): not materialised, run not judged
+		r.unpinned = true
+	}
 	return r
 }
 
@@ -683,6 +689,9 @@ func c01KeyOf(ref *c01Ref, im *c01Impl) string {
 		if (op == 50 || op == 180) && m.DjumpTable && p.Z > 8 {
 			return ck + "z>8"
 		}
+		if (op == 50 || op == 180) && m.DjumpTable && (m.DjumpEntry.Huge || m.DjumpEntry.Val >= 1<<32) {
+			return ck + "jt-entry>=2^32"
+		}
 	}
 	if pc+1+uint64(need) > n {
 		return ck + "operands-past-end"
@@ -842,7 +851,7 @@ func c01Judge(prog *refpvm.Program, blob []byte, ip *Program, w *c01World, gas u
 		return v
 	}
 	if v.ref.unpinned {
-		v.ok, v.relax = true, "hostcall-oog-unpinned"
+		v.ok, v.relax = true, "unjudged"
 		return v
 	}
 	v.im, v.ip = c01RunImpl(blob, ip, w, gas)
@@ -1135,12 +1144,14 @@ func c01SingleBlob(u c01OpUnit, b1, b2 byte, s, pos, tail int) []byte {
 	}
 	code, mask := refpvm.Concat(list...)
 	// jump table: entry 0 → a block start, entry 1 → the first operand byte of I
-	// (a non-start when s ≥ 1), entry 2 → far out of range
+	// (a non-start when s ≥ 1), entry 2 → far out of range, entry 3 → see below
 	start := uint64(0)
 	if pos <= 1 {
 		start = uint64(len(code) - 1) // trailing trap, preceded by a fallthrough
 	}
-	jt := []uint64{start, uint64(pcI + 1), uint64(len(code) + 100)}
+	// entry 3: the block start plus 2^32 (for widths z >= 5 an entry that must not be
+	// truncated to 32 bits; for narrower entries simply the block start again)
+	jt := []uint64{start, uint64(pcI + 1), uint64(len(code) + 100), 1<<32 + start}
 	return refpvm.Blob(jt, u.z, code, mask)
 }
 
